@@ -22,7 +22,7 @@ META = {
                    "strict sub-term of itself. R04.rec: the only call-graph cycle is the walker's self-recursion on strict sub-terms.",
     "assumptions": ["dependencies do not panic on valid arguments (not analysed)", "stack depth is bounded by the property's nesting bound (<= 64)",
                     "overflow checks are analysed as enabled: every arithmetic site is enumerated, which covers builds without them"],
-    "floors": {"R04.sites": 80, "R04.loops": 40, "R04.rec": 1},
+    "floors": {"R04.sites": 80, "R04.loops": 40, "R04.rec": 1, "R04.stack": 1},
 }
 
 PANIC_CALLS = ("::unwrap", "::expect", "::unwrap_unchecked")
@@ -286,6 +286,18 @@ def run(ctx, crate):
             obs.append(Ob("R04.rec", comp[0], "call-graph cycle %s" % " -> ".join(comp), False, expected="no recursion besides the tree walker"))
     if not any(c == [WALKER] for c in cyc):
         obs.append(Ob("R04.rec", WALKER, "walker recursion present in the analysed call graph", False))
+    # R04.stack: the depth bound of the property (nesting <= 64) was established for the recursive walk running on the process's main thread; a spawned
+    # thread has a much smaller default stack (2 MiB), so the same file can exhaust it and abort the run. No thread is started anywhere in the crate.
+    spawns = []
+    for b_ in crate.bodies.values():
+        if b_.derived:
+            continue
+        for s_ in S.call_sites(b_):
+            if any(p_.startswith("std::thread::") and p_.rsplit("::", 1)[-1] in ("spawn", "spawn_scoped", "scope", "spawn_unchecked") for p_ in {s_.path, s_.resolved}):
+                spawns.append("%s in %s (line %d)" % (core.short_fn(s_.path), b_.path.rsplit("::", 2)[-2] + "::" + b_.path.rsplit("::", 1)[-1], s_.line))
+    obs.append(Ob("R04.stack", crate.name, "the recursive tree walk runs on the main thread's stack (no thread is spawned)", not spawns,
+                  expected="no std::thread::spawn / scope in the crate", found=spawns or "none",
+                  example="32 nested parentheses analysed on a worker thread with the default 2 MiB stack"))
     ctx.analysed.setdefault("C04", {})[crate.ctype] = {"reachable_bodies": len(reach), "panic_capable_sites": n_sites, "justifications_used": len(used_j), "justifications": len(J)}
     for i, e in enumerate(J):
         if i not in used_j:
